@@ -49,6 +49,8 @@ def _scenario(draw, tier):
         newx_form=draw(st.sampled_from(["row", "flat", "scalar", "list"])),
         lo=draw(st.sampled_from([0.0, -2.0, 10.0])), width=draw(st.sampled_from([1.0, 4.0])),
         func=draw(st.sampled_from(["sin", "quad", "bump"])), kappa=draw(st.sampled_from([0.5, 2.0])),
+        # hyper-parameters of the first model given by the caller (as an array, a python list or a tuple) instead of fitted
+        hyperpars_form=draw(st.sampled_from([None, None, None, None, "ndarray", "list", "tuple"])),
         ops=ops,
     )
 
@@ -237,12 +239,23 @@ def execute(sc):
         else:
             b_in = list(bounds)
         b_snap = _snap(b_in) if isinstance(b_in, np.ndarray) else repr(b_in)
+        hp_form = sc.get("hyperpars_form")
+        if hp_form:
+            # (default model: constant mean, squared-exponential kernel: mean, log-amplitude, one log-length-scale per dimension)
+            hp = [float(np.mean(y0)), float(np.log(np.std(y0) + 0.1))] + [float(np.log(0.3 * (hi[k] - lo[k]))) for k in range(d)]
+            kw["hyperpars"] = np.array(hp) if hp_form == "ndarray" else (list(hp) if hp_form == "list" else tuple(hp))
+            hp_snap = repr(kw["hyperpars"])
         try:
             opt = lib_call("GpOptimiser()", GpOptimiser, x_in, y_in, bounds=b_in, y_err=e_in,
                            optimizer=sc["optimizer"], n_processes=int(sc.get("n_processes", 1)), **kw)
+            if hp_form:
+                stats["fault_hyperparameters_given_as_" + hp_form] += 1
+                if repr(kw["hyperpars"]) != hp_snap:
+                    _viol(V, "caller.arrays", "the hyper-parameter values passed by the caller were modified")
         except LibRaised as e:
             _viol(V, "op.raised", str(e))
             opt = None
+        kw.pop("hyperpars", None)
         mX, my, me = [r.copy() for r in X0], list(y0), (None if e0 is None else list(e0))
 
         def inputs_ok(when):
@@ -314,6 +327,9 @@ def execute(sc):
         if opt is not None:
             inputs_ok("after construction")
             model_ok("after construction")
+            if hp_form and not V:
+                # the first model is the one built with the caller's hyper-parameters: query it before any refit
+                spot_oracles(V, opt, sc, bounds, np.random.Generator(np.random.PCG64([sc["seed"] & 0xFFFF, 77])), stats)
         for op in (sc["ops"] if opt is not None else []):
             if V:
                 break
